@@ -98,4 +98,9 @@ def run(src, tier, seed):
         res.bad(r, f.key, f.where, f.msg)
     if not hits:
         res.ok(r, 'all drand/irand/rand sites draw from configured or constant seeds')
+    # ---- generic: updates meant for a container element must reach it (found GhostSMTSolver::relocAll, an engine selected by :ghost-vars)
+    import generic
+    r = res.rule('element-updates-reach-the-container', 'no range-based for over a by-value variable ends an iteration with an assignment to that variable that nothing reads (the update '
+                 'was meant for the container element): all functions of the solver', floor=100)
+    generic.dead_store_to_loop_copy(fx, res, r)
     return res
